@@ -195,10 +195,16 @@ class Query(QueryBase[QueryResult]):
         conditions, params = self._common_conditions()
 
         # Random sampling: generate a random number in (0, 1) based on the
-        # specification of SQLite's random() function.
+        # specification of SQLite's random() function. SQLite evaluates a WHERE
+        # term that references no table once per row of the *outermost* loop of
+        # the join, and that is the flights table whenever a filter makes an
+        # index on flights attractive: all scheduled instances of a flight
+        # would then be kept or dropped together. Referencing the schedule row
+        # (without changing the value) makes the test run once per instance.
         if self.sample is not None:
             conditions.append(
-                '(random() + 9223372036854775808) / 18446744073709551615.0 < ?'
+                '(random() + 9223372036854775808 + 0 * s.id) '
+                '/ 18446744073709551615.0 < ?'
             )
             params.append(self.sample)
 
